@@ -85,6 +85,17 @@ int main(int argc, char** argv) {
           Node root = parse_exact(pool[0].bytes); Node& blocks = root.kids[2]; Node empty = mk_map({mk_uint(0), mk_map({mk_uint(0), mk_array({mk_uint(1600000000), mk_uint(0)}), mk_uint(1), mk_uint(0)})});
           blocks.kids.insert(blocks.kids.begin() + 1, empty); blocks.kids.push_back(empty); add("K", encode(root)); }
         { seeds::Opt o; o.sets = {PS(10000, 1000000, 0)}; o.blocks = 2; o.per_block = 1; o.qr_from = 1; o.vpriv = -1; add("L", seeds::make(o)); }   // no private version at all (a plain RFC 8618 producer)
+        { // M: like A, but written by a non-aggregating producer: in each block the first address-event entry appears a second time with another count
+          Node root = parse_exact(pool[0].bytes); int edited = 0;
+          for (auto& blk : root.kids[2].kids) for (size_t i = 0; i + 1 < blk.kids.size(); i += 2) if (blk.kids[i].is_uint() && blk.kids[i].arg == 4 && !blk.kids[i + 1].kids.empty()) { Node dup = blk.kids[i + 1].kids[0];
+              for (size_t j = 0; j + 1 < dup.kids.size(); j += 2) if (dup.kids[j].is_uint() && dup.kids[j].arg == 4) { dup.kids[j + 1] = mk_uint(dup.kids[j + 1].arg + 2 + edited); edited++; } blk.kids[i + 1].kids.push_back(dup); }
+          if (!edited) { fprintf(stderr, "pool file M: no address-event array found\n"); return done(2); }
+          add("M", encode(root)); }
+        { // N: the first address-event entry of each block appears a second time unchanged (same key, same count): still two items of the array
+          Node root = parse_exact(pool[0].bytes); int edited = 0;
+          for (auto& blk : root.kids[2].kids) for (size_t i = 0; i + 1 < blk.kids.size(); i += 2) if (blk.kids[i].is_uint() && blk.kids[i].arg == 4 && !blk.kids[i + 1].kids.empty()) { Node dup = blk.kids[i + 1].kids[0]; blk.kids[i + 1].kids.push_back(dup); edited++; }
+          if (!edited) { fprintf(stderr, "pool file N: no address-event array found\n"); return done(2); }
+          add("N", encode(root)); }
         { PoolFile z; z.name = "Z"; z.path = g_dir + "/in_Z_missing"; pool.push_back(z); }
         if (!pool[7].valid || !pool[8].valid || pool[8].rf.blocks.empty() || pool[8].rf.blocks[0].has_bpi) { fprintf(stderr, "pool file I or J invalid\n"); return done(2); }
         size_t N = pool.size();
@@ -149,7 +160,7 @@ int main(int argc, char** argv) {
             run_tuple(tuples[i], R);
         }, [&](uint64_t, const std::string& d, Result& R) { R.violation("merge|harness-crash", d.substr(0, 500), pl.last_note); }, total);
         total.n["evaluations"] = total.n["traces"];
-        total.notes.push_back("pool: A(1 set,1e6 tps,3 blocks) B(2 sets,1e3 tps,reduced hints,4 blocks) C(1e9 tps, QR hints 0) D(minor version 5) E(private version 9) G(300 non-CDNS bytes) H(B cut inside block 2) I(valid, zero blocks) J(10^9 ticks, blocks without block-parameters-index) K(A with two empty blocks) L(no private version) Z(missing)");
+        total.notes.push_back("pool: A(1 set,1e6 tps,3 blocks) B(2 sets,1e3 tps,reduced hints,4 blocks) C(1e9 tps, QR hints 0) D(minor version 5) E(private version 9) G(300 non-CDNS bytes) H(B cut inside block 2) I(valid, zero blocks) J(10^9 ticks, blocks without block-parameters-index) K(A with two empty blocks) L(no private version) M(A with an address-event key listed twice with different counts) N(the same with equal counts) Z(missing)");
         return done(0);
     }
 
